@@ -39,6 +39,8 @@ const (
 	opREVERT       = 0xfd
 	opINVALID      = 0xfe
 	opSELFDESTRUCT = 0xff
+	opAUTH         = 0xf6
+	opAUTHCALL     = 0xf7
 	opSTAKE        = 0xee
 	opUNSTAKE      = 0xef
 	opUNSTAKEALL   = 0xeb
@@ -186,6 +188,47 @@ type Action struct {
 	Salt     uint64   `json:"salt,omitempty"`
 	ThenCall string   `json:"then_call,omitempty"`
 	Raw      string   `json:"raw,omitempty"` // returnraw: hex runtime code
+	// authcall: AUTH (signature of authority Auth over this invoker) then AUTHCALL
+	// of Value wei to To; BadSig corrupts the signature, NonceOff shifts the
+	// authorized nonce pushed for AUTHCALL
+	Auth     string `json:"auth,omitempty"`
+	BadSig   bool   `json:"bad_sig,omitempty"`
+	NonceOff int    `json:"nonce_off,omitempty"`
+}
+
+// authEnv is what compiling an authcall action needs beyond address
+// resolution: the invoker (the contract whose code is being compiled), the
+// chain id the interpreter will use, the authority's current nonce and key.
+// Set by monitor.build before compiling the top-level program of a creation tx.
+var authEnv struct {
+	invoker common.Address
+	chainID *big.Int
+	nonceOf func(common.Address) uint64
+	sign    func(authority common.Address, digest []byte) []byte // 65-byte r||s||v(0/1)
+	used    map[common.Address]uint64
+}
+
+// authWords: v, r, s, commit of the EIP-3074 style message opAuth verifies:
+// keccak256(0x03 || chainId(32) || invoker(32) || commit(32)).
+func authWords(authority common.Address, bad bool) [4][32]byte {
+	var commit [32]byte
+	copy(commit[:], keccak([]byte("c06-commit")))
+	msg := make([]byte, 97)
+	msg[0] = 0x03
+	cb := authEnv.chainID.Bytes()
+	copy(msg[33-len(cb):33], cb)
+	copy(msg[65-20:65], authEnv.invoker.Bytes())
+	copy(msg[65:], commit[:])
+	sig := authEnv.sign(authority, keccak(msg))
+	var w [4][32]byte
+	w[0][31] = sig[64] + 27
+	copy(w[1][:], sig[0:32])
+	copy(w[2][:], sig[32:64])
+	if bad {
+		w[1][5] ^= 0x40
+	}
+	w[3] = commit
+	return w
 }
 
 type resolver func(ref string) common.Address
@@ -281,6 +324,23 @@ func compileInto(a *asm, prog []Action, res resolver) {
 			rt := compile(ac.Runtime, res)
 			a.mstoreBytes(0, rt)
 			a.pushInt(uint64(len(rt))).pushInt(0).op(opRETURN)
+		case "authcall":
+			au := res(ac.Auth)
+			w := authWords(au, ac.BadSig)
+			var blob []byte
+			for i := 0; i < 4; i++ {
+				blob = append(blob, w[i][:]...)
+			}
+			a.mstoreBytes(0, blob)
+			a.pushInt(128).pushInt(0).push20(au).op(opAUTH).op(opPOP)
+			n := authEnv.nonceOf(au) + authEnv.used[au]
+			authEnv.used[au]++                                       // AUTHCALL bumps the authority's nonce whether or not the call succeeds
+			a.pushInt(0).pushInt(0).pushInt(0).pushInt(0).pushInt(0) // retLength retOffset argsLength argsOffset valueExt
+			a.pushBig(bigDec(ac.Value))
+			pushRef(a, ac.To, res)
+			a.pushInt(ac.Gas) // 0 = everything available
+			a.pushInt(uint64(int64(n) + int64(ac.NonceOff)))
+			a.op(opAUTHCALL).op(opPOP)
 		case "returnraw":
 			rt := common.FromHex(ac.Raw)
 			a.mstoreBytes(0, rt)
@@ -308,6 +368,9 @@ func refsOf(prog []Action, out map[string]bool) {
 	for _, ac := range prog {
 		if ac.To != "" && ac.To != "self" && ac.To != "caller" && ac.To != "origin" {
 			out[ac.To] = true
+		}
+		if ac.Auth != "" {
+			out[ac.Auth] = true
 		}
 		for _, w := range ac.Args {
 			if !(len(w) > 2 && w[:2] == "w:") {
